@@ -19,6 +19,10 @@ type c17LookupCase struct {
 	Entries  [][]string `json:"entries"` // canonical key tuples, distinct
 	Lookups  [][]string `json:"lookups"`
 	Store    string     `json:"store"`
+	// Partial > 0 (node-slice, compound keys): the slice starts with an item that is a copy of entry Partial-1 lacking the
+	// key leaf PartialKey (not the last one): an item without a complete key is never the answer to a keyed lookup
+	Partial    int `json:"partial,omitempty"`
+	PartialKey int `json:"partialKey,omitempty"`
 }
 
 func c17KeyType(base string) *dm.Type {
@@ -74,6 +78,10 @@ func c17LookupGen(t *rapid.T) c17LookupCase {
 		}
 		seen[id] = true
 		c.Entries = append(c.Entries, tuple)
+	}
+	if c.Store == "node-slice" && nk > 1 && rapid.IntRange(0, 2).Draw(t, "partial-item") == 0 {
+		c.Partial = 1 + rapid.IntRange(0, len(c.Entries)-1).Draw(t, "partial-of")
+		c.PartialKey = rapid.IntRange(0, nk-2).Draw(t, "partial-key")
 	}
 	// look up every entry, and tuples recombined from the components present (mostly absent)
 	c.Lookups = append(c.Lookups, c.Entries...)
@@ -137,6 +145,17 @@ func c17LookupRun(c c17LookupCase, o *hx.Obs) {
 		}
 	}
 	if (len(c.KeyTypes) > 1 && shared) || len(c.Entries) >= 3 {
+		o.NonTrivial()
+	}
+	if c.Partial > 0 && c.Partial <= len(c.Entries) && c.PartialKey < len(l.Keys)-1 && c.Store == "node-slice" {
+		row := dm.Tree{"v": "partial"}
+		for j, k := range l.Keys {
+			if j != c.PartialKey {
+				row[k] = c.Entries[c.Partial-1][j]
+			}
+		}
+		rows = append([]interface{}{row}, rows...)
+		o.Class("the slice starts with an item that lacks a key leaf")
 		o.NonTrivial()
 	}
 	store, serr := dm.NewStore(c.Store, m.Root(), dm.Tree{"l": rows})
